@@ -69,8 +69,9 @@ type VerifC14Engine interface {
 	ClearIndexCache(db string, ptId uint32, indexID uint64) error
 }
 
-// VerifC14NewService builds a real retention.Service and returns its handle().
-var VerifC14NewService func(mc VerifC14MetaClient, e VerifC14Engine, interval time.Duration) func()
+// VerifC14NewService builds a real retention.Service and returns its handle() and a rendering of the
+// state the service keeps between two checks (see VerifHiddenState in hooks/services/retention/c14_hook.go).
+var VerifC14NewService func(mc VerifC14MetaClient, e VerifC14Engine, interval time.Duration) (func(), func() string)
 
 const (
 	c14DB       = "db0"
@@ -378,6 +379,7 @@ type c14World struct {
 	eng     *EngineImpl
 	rec     *c14Engine
 	handle  func()
+	hidden  func() string // what the service remembers between two checks
 	rep     *kit.Report
 	t0      time.Time
 	mstName string
@@ -485,7 +487,7 @@ func c14NewWorld(dir string, d0 int, init string, rep *kit.Report) (*c14World, e
 	w.eng = c14NewEngine(dir, data)
 	w.rec = &c14Engine{EngineImpl: w.eng, w: w}
 	w.rec.reset(false)
-	w.handle = VerifC14NewService(w.mc, w.rec, c14Interval)
+	w.handle, w.hidden = VerifC14NewService(w.mc, w.rec, c14Interval)
 	if err := w.write(w.t0, init == "open"); err != nil {
 		return w, fmt.Errorf("root write: %w", err)
 	}
@@ -724,18 +726,30 @@ var c14BaseOps = []string{"T-1", "T0", "T+1", "TI", "H", "Hw", "A0", "A1/2", "A1
 // H!*: >= 2 calls fail, with one it is the positional variant); otherwise it is the plain H and is cut.
 const c14MaxFaultPos = 24
 
-var c14FaultOps = func() []string {
+// c14RefreshFaultOps: the variants that hit the two duration-refresh calls every run starts with. They are
+// tried before the plain H: on the unchanged tree they end the run at once and mostly leave the state as it
+// is, so the same live world then serves H (exploration order only, no effect on what is explored).
+var c14RefreshFaultOps = []string{"H!1", "H!2", "H!*"}
+
+var c14LaterFaultOps = func() []string {
 	var ops []string
-	for k := 1; k <= c14MaxFaultPos; k++ {
+	for k := 3; k <= c14MaxFaultPos; k++ {
 		ops = append(ops, fmt.Sprintf("H!%d", k))
 	}
 	for _, ck := range c14CallKinds {
 		ops = append(ops, "H!"+ck.Short)
 	}
-	return append(ops, "H!*")
+	return ops
 }()
 
-var c14Ops = append(append([]string{}, c14BaseOps...), c14FaultOps...)
+// c14RunOps: every retention-run operation in exploration order
+var c14RunOps = append(append(append(append([]string{}, c14RefreshFaultOps...), "H"), c14LaterFaultOps...), "Hw")
+
+var c14Ops = func() []string {
+	ops := []string{"T-1", "T0", "T+1", "TI"}
+	ops = append(ops, c14RunOps...)
+	return append(ops, "A0", "A1/2", "A1", "A2", "Wn", "We", "Wo", "Cn", "Ce")
+}()
 
 // c14ParseFault: the plan of a fault variant of H; ok=false for every other op.
 func c14ParseFault(op string) (c14FaultPlan, bool) {
@@ -1289,7 +1303,7 @@ func (w *c14World) digest() (exact, abstract string) {
 	for _, g := range w.groups {
 		fmt.Fprintf(&b, "%s L=%v doomed=%v gone=%v intr=%v runs=%d pts=%d;", g.name(w), g.Loaded, g.Doomed, g.Gone, g.Interrupted, g.ExpiredRuns, len(g.Points))
 	}
-	fmt.Fprintf(&b, "}dm=%s", w.dm)
+	fmt.Fprintf(&b, "}dm=%s;svc{%s}", w.dm, w.hidden())
 	body := b.String()
 	now := time.Now()
 	exact = fmt.Sprintf("now=%s;%s", c14Rel(w.t0, now), body)
@@ -1733,14 +1747,11 @@ func c14Main(t *testing.T, rep *kit.Report) {
 	if d := kit.Getenv("VERIF_DEPTH", ""); d != "" {
 		fmt.Sscanf(d, "%d", &maxLen)
 	}
-	maxFaulted := 1
-	if kit.Thorough() {
-		maxFaulted = 2
-	}
+	maxFaulted := 1 // deviation bound: retention runs with an injected catalogue failure per history
 	if d := kit.Getenv("VERIF_C14_FAULTED_RUNS", ""); d != "" {
 		fmt.Sscanf(d, "%d", &maxFaulted)
 	}
-	lastOps := append([]string{"H", "Hw"}, c14FaultOps...)
+	lastOps := c14RunOps
 	rep.Count("max_depth", 0)
 	rep.Max("max_depth", int64(maxLen))
 	rep.Count("max_faulted_runs_per_history", 0)
@@ -1775,12 +1786,13 @@ func c14Main(t *testing.T, rep *kit.Report) {
 	// accepted finite durations and unlimited, writes at now and at the edge of the window)
 	if kit.Thorough() && kit.Getenv("VERIF_DEPTH", "") == "" {
 		core := []string{"T0", "T+1", "TI", "H", "A0", "A1", "A2", "Wn", "We"}
-		rep.Note("second phase: every sequence of <= %d operations of %v followed by a retention run (H or Hw)", maxLen, core)
+		coreLast := append(append([]string{}, c14RefreshFaultOps...), "H", "Hw")
+		rep.Note("second phase: every sequence of <= %d operations of %v followed by a retention run of %v (fault variants: the duration-refresh calls only)", maxLen, core, coreLast)
 		rep.Max("max_depth_core", int64(maxLen+1))
 		for _, d0 := range []int{2, 3, 0} {
 			for _, init := range []string{"open", "cat"} {
-				x := &c14Explorer{rep: rep, scratch: scratch, maxLen: maxLen + 1, inner: core, last: []string{"H", "Hw"},
-					d0: d0, init: init, failed: map[string]bool{}, itemBase: item, countFrom: maxLen - 1}
+				x := &c14Explorer{rep: rep, scratch: scratch, maxLen: maxLen + 1, inner: core, last: coreLast,
+					d0: d0, init: init, failed: map[string]bool{}, itemBase: item, countFrom: maxLen - 1, maxFaulted: maxFaulted}
 				item += len(c14Ops) * len(c14Ops)
 				x.visit(nil, nil)
 				if x.stop {
